@@ -405,6 +405,7 @@ func c05Check(x *core.Ctx, c *core.Case) {
 			x.Count("string_kind_sequences_compared")
 		}
 		checkTypeTexts(x, res)
+		checkQueryLookups(x, res.(*ast.QueryDocument))
 		if plain := c.Get("plain"); plain != "" {
 			d2, err := parser.ParseQuery(&ast.Source{Name: "plain.graphql", Input: plain})
 			if err != nil {
@@ -519,5 +520,156 @@ func walkQueryValues(doc *ast.QueryDocument, f func(v *ast.Value)) {
 		vars(fr.VariableDefinition)
 		dirs(fr.Directives)
 		sels(fr.SelectionSet)
+	}
+}
+
+// checkQueryLookups: the lookup helpers of the tree's lists (what an executor calls to find the operation, a fragment, an
+// argument) answer from what was written: the first entry of the name, nil for a name nothing has, and for operations the
+// single operation when no name is asked for.
+func checkQueryLookups(x *core.Ctx, doc *ast.QueryDocument) {
+	bad := func(what, obs string) { x.Violate("lookup-helper("+what+")", obs, "the first listed entry of that name") }
+	x.Count("lookup_documents")
+	for i, op := range doc.Operations {
+		first := i
+		for j := 0; j < i; j++ {
+			if doc.Operations[j].Name == op.Name {
+				first = j
+				break
+			}
+		}
+		if got := doc.Operations.ForName(op.Name); got != doc.Operations[first] && !(op.Name == "" && len(doc.Operations) == 1) {
+			bad("OperationList.ForName", fmt.Sprintf("operation %d %q not found", i, op.Name))
+		}
+		for _, vd := range op.VariableDefinitions {
+			if got := op.VariableDefinitions.ForName(vd.Variable); got == nil || got.Variable != vd.Variable {
+				bad("VariableDefinitionList.ForName", "$"+vd.Variable+" not found")
+			}
+		}
+		if op.VariableDefinitions.ForName("\x00none") != nil {
+			bad("VariableDefinitionList.ForName", "found a variable nothing declares")
+		}
+	}
+	if len(doc.Operations) == 1 && doc.Operations.ForName("") != doc.Operations[0] {
+		bad("OperationList.ForName(single)", "the only operation is not returned for the empty name")
+	}
+	if len(doc.Operations) > 1 {
+		var anon *ast.OperationDefinition
+		for _, op := range doc.Operations {
+			if op.Name == "" {
+				anon = op
+				break
+			}
+		}
+		if doc.Operations.ForName("") != anon {
+			bad("OperationList.ForName(several)", "empty name among several operations does not give the first anonymous one (or nil)")
+		}
+	}
+	if doc.Operations.ForName("\x00none") != nil {
+		bad("OperationList.ForName", "found an operation nothing names")
+	}
+	for i, f := range doc.Fragments {
+		first := i
+		for j := 0; j < i; j++ {
+			if doc.Fragments[j].Name == f.Name {
+				first = j
+				break
+			}
+		}
+		if doc.Fragments.ForName(f.Name) != doc.Fragments[first] {
+			bad("FragmentDefinitionList.ForName", "fragment "+f.Name+" not found")
+		}
+	}
+	if doc.Fragments.ForName("\x00none") != nil {
+		bad("FragmentDefinitionList.ForName", "found a fragment nothing names")
+	}
+	dirs := func(ds ast.DirectiveList) {
+		for i, d := range ds {
+			first, n := i, 0
+			for j, d2 := range ds {
+				if d2.Name == d.Name {
+					if j < first {
+						first = j
+					}
+					n++
+				}
+			}
+			if ds.ForName(d.Name) != ds[first] {
+				bad("DirectiveList.ForName", "@"+d.Name+" not found")
+			}
+			if len(ds.ForNames(d.Name)) != n {
+				bad("DirectiveList.ForNames", fmt.Sprintf("@%s: %d of %d", d.Name, len(ds.ForNames(d.Name)), n))
+			}
+			args(x, d.Arguments, bad)
+		}
+		if ds.ForName("\x00none") != nil || len(ds.ForNames("\x00none")) != 0 {
+			bad("DirectiveList.ForName", "found a directive nothing applies")
+		}
+	}
+	var sel func(ss ast.SelectionSet)
+	sel = func(ss ast.SelectionSet) {
+		for _, s := range ss {
+			switch s := s.(type) {
+			case *ast.Field:
+				args(x, s.Arguments, bad)
+				dirs(s.Directives)
+				sel(s.SelectionSet)
+			case *ast.InlineFragment:
+				dirs(s.Directives)
+				sel(s.SelectionSet)
+			case *ast.FragmentSpread:
+				dirs(s.Directives)
+			}
+		}
+	}
+	for _, op := range doc.Operations {
+		dirs(op.Directives)
+		for _, vd := range op.VariableDefinitions {
+			dirs(vd.Directives)
+		}
+		sel(op.SelectionSet)
+	}
+	for _, f := range doc.Fragments {
+		dirs(f.Directives)
+		sel(f.SelectionSet)
+	}
+}
+
+func args(x *core.Ctx, as ast.ArgumentList, bad func(what, obs string)) {
+	for i, a := range as {
+		first := i
+		for j := 0; j < i; j++ {
+			if as[j].Name == a.Name {
+				first = j
+				break
+			}
+		}
+		if as.ForName(a.Name) != as[first] {
+			bad("ArgumentList.ForName", "argument "+a.Name+" not found")
+		}
+		var val func(v *ast.Value)
+		val = func(v *ast.Value) {
+			if v == nil {
+				return
+			}
+			for k, ch := range v.Children {
+				if v.Kind == ast.ObjectValue {
+					f := k
+					for j := 0; j < k; j++ {
+						if v.Children[j].Name == ch.Name {
+							f = j
+							break
+						}
+					}
+					if v.Children.ForName(ch.Name) != v.Children[f].Value {
+						bad("ChildValueList.ForName", "object field "+ch.Name+" not found")
+					}
+				}
+				val(ch.Value)
+			}
+		}
+		val(a.Value)
+	}
+	if as.ForName("\x00none") != nil {
+		bad("ArgumentList.ForName", "found an argument nothing passes")
 	}
 }
